@@ -27,6 +27,7 @@ func sendDir[T any](ch chan<- T, v T) {
 	Yield()
 	select {
 	case ch <- v:
+		postSend()
 		return
 	default:
 	}
@@ -37,6 +38,36 @@ func sendDir[T any](ch chan<- T, v T) {
 	case <-s.kill:
 		runtime.Goexit()
 	}
+	s.acquire(t)
+	postSend()
+}
+
+// PostSendOff switches the pre-emption point behind a completed send off (replay files written
+// before it existed: format 1).
+var PostSendOff bool
+
+// postSend is a pre-emption point right after a value was handed over: the receiver may run with
+// it before the sender executes its next statement ("publish, then update" orders). Half of the
+// runs have it (the schedule tape decides at the first send), with the run's pre-emption coin.
+func postSend() {
+	s := S
+	if PostSendOff || s == nil {
+		return
+	}
+	t := s.cur
+	if t == nil || s.killed || t.noPre > 0 || s.PreemptDen < 2 {
+		return
+	}
+	if !s.postInit {
+		s.postInit = true
+		s.postOn = s.Tape.Choose(2) == 1
+	}
+	if !s.postOn || s.Tape.Choose(s.PreemptDen) != 1 {
+		return
+	}
+	s.Preemptions++
+	s.PostSendYields++
+	s.release(t, stInOp)
 	s.acquire(t)
 }
 
@@ -121,6 +152,10 @@ func (c *SendCase[T]) selCase() reflect.SelectCase {
 
 func (c *SendCase[T]) selDone(reflect.Value, bool) {}
 
+type sendCase interface{ isSend() }
+
+func (c *SendCase[T]) isSend() {}
+
 // Select executes a rewritten select statement and returns the index of the chosen clause, or -1
 // for the default clause. When several clauses are ready the choice is the tape's.
 func Select(hasDefault bool, cases ...SelCase) int {
@@ -161,6 +196,9 @@ func Select(hasDefault bool, cases ...SelCase) int {
 		j, v, ok := reflect.Select(two)
 		if j == 0 {
 			cases[i].selDone(v, ok)
+			if _, snd := cases[i].(sendCase); snd {
+				postSend()
+			}
 			return i
 		}
 	}
@@ -176,5 +214,8 @@ func Select(hasDefault bool, cases ...SelCase) int {
 	}
 	s.acquire(t)
 	cases[i].selDone(v, ok)
+	if _, snd := cases[i].(sendCase); snd {
+		postSend()
+	}
 	return i
 }
